@@ -595,6 +595,72 @@ def check_memo_after_failure(kind):
     return None
 
 
+def check_call_contexts(ctx_kind):
+    """equal calls of one CACHED generator from different contexts - module level, inside a cached generator's body,
+    inside the body of a generator declared with enable_cache=False (directly and two levels down), after one result was
+    elaborated, from a generator's fallback branch - return the identical Module; the body runs once; the design exports"""
+    import hdl21 as h
+    w = {"case": "call-contexts", "kind": ctx_kind}
+
+    @h.paramclass
+    class CP:
+        width = h.Param(dtype=int, desc="w", default=1)
+    runs = {"n": 0}
+
+    @h.generator
+    def CInner(p: CP) -> h.Module:
+        runs["n"] += 1
+        m = h.Module()
+        m.a = h.Port(width=p.width)
+        m.r = h.R(r=p.width)(p=m.a[0], n=m.a[0])
+        return m
+
+    @h.generator
+    def CMid(p: CP) -> h.Module:
+        m = h.Module()
+        m.s = h.Signal(width=p.width)
+        m.i = CInner(width=p.width)(a=m.s)
+        return m
+
+    def uncached_body(p: CP) -> h.Module:
+        m = h.Module()
+        m.s = h.Signal(width=p.width)
+        if ctx_kind == "uncached-deep":
+            m.i = CMid(width=p.width)()
+        else:
+            m.i = CInner(width=p.width)(a=m.s)
+        return m
+    uncached_body.__name__ = "CUncached"
+    CUncached = h.generator(uncached_body, enable_cache=False)
+    first = CInner(width=4)
+    top = h.Module(name="CtxTop")
+    top.s = h.Signal(width=4)
+    top.direct = first(a=top.s)
+    if ctx_kind == "cached-parent":
+        top.p = CMid(width=4)()
+    elif ctx_kind in ("uncached-parent", "uncached-deep"):
+        top.p = CUncached(width=4)()      # (one call only: two results of an uncached generator are same-named twins)
+    elif ctx_kind == "after-elaboration":
+        h.elaborate(first)
+        top.p = CMid(width=4)()
+    elif ctx_kind == "after-export-of-user":
+        h.to_proto(CMid(width=4))
+    again = CInner(width=4)
+    top.again = again(a=top.s)
+    if again is not first:
+        return ("memo.identity", f"{ctx_kind}: an equal call returned another module", w)
+    if runs["n"] != 1:
+        return ("memo.runs", f"{ctx_kind}: the body of the cached generator ran {runs['n']} times for equal parameters", w)
+    try:
+        pkg = h.to_proto(top)
+    except Exception as e:
+        return ("memo.export", f"{ctx_kind}: the design does not export: {type(e).__name__}: {str(e)[:120]}", w)
+    names = [m.name for m in pkg.modules]
+    if len(set(names)) != len(names) or sum("CInner" in n for n in names) != 1:
+        return ("names.collide", f"{ctx_kind}: exported module names {names}", w)
+    return None
+
+
 def _parent(h, child):
     p = h.Module(name="FParent")
     p.i, p.o = h.Input(), h.Output()
@@ -682,6 +748,12 @@ def run(ctx):
                     rule="a generated module whose elaboration fails (alone, inside a parent, inside a generated parent; "
                          "elaborate and to_proto): the same call returns the same module afterwards, the body runs once",
                     bound="3 placements x 2 entry points", key_of=repr)
+    ctx.run_bounded("call-contexts", ["module-level", "cached-parent", "uncached-parent", "uncached-deep", "after-elaboration",
+                                      "after-export-of-user"], check_call_contexts,
+                    rule="equal calls of one cached generator from module level, from a cached generator's body, from the body "
+                         "of a generator with enable_cache=False (directly / two levels down), after its result was elaborated "
+                         "or a user of it exported: identical Module, body run once, one exported module",
+                    bound="6 contexts", key_of=repr)
     ctx.run_bounded("string-pair-names", ALPHABETS if ctx.tier == "thorough" else ALPHABETS[:3], check_string_pairs,
                     rule="every pair of strings built from up to three pieces of a small alphabet (a letter, the ` b=` "
                          "separator shape, `=`, blank, tab, line breaks, `None`): different pairs get different names",
@@ -705,6 +777,8 @@ def replay(payload):
         r = check_cross_process_names(0)
     elif inp.get("case") == "memo-after-failure":
         r = check_memo_after_failure(inp["kind"])
+    elif inp.get("case") == "call-contexts":
+        r = check_call_contexts(inp["kind"])
     elif inp.get("case") == "hdl-valued":
         r = check_hdl_valued(0)
     elif inp.get("case") == "string-pairs":
